@@ -424,7 +424,8 @@ impl Debug for FramesDebug {
 
 pub(crate) fn num_frames(frames: &[Frame], slice: Option<(usize, usize)>) -> usize {
 	if let Some((start, end)) = slice {
-		end - start
+		// an inverted slice is empty, and a slice can't be longer than the data
+		end.min(frames.len()).saturating_sub(start)
 	} else {
 		frames.len()
 	}
